@@ -190,6 +190,21 @@ def gen_eventual(out):
         out.append("Definition ev_turn_marks_batch : bool := false.")
     else:
         raise U("_turn: self._in_turn is set in an unexpected way")
+    # every top-level statement of _turn must be one of those recognised above (fail closed on anything else:
+    # a statement this generator does not understand may reorder or drop queued calls)
+    accounted = set(idx_clear + idx_swap + idx_for + idx_on + idx_off) | set(range(fi, len(body)))
+    extra = [ast.unparse(body[i]) for i in range(len(body)) if i not in accounted]
+    if extra:
+        raise U("_turn contains statements the model does not cover: %r" % (extra,))
+    if len(stmts_no_doc(ap)) != 2:
+        raise U("append contains statements the model does not cover: %r" % [ast.unparse(x) for x in stmts_no_doc(ap)])
+    cls_src = P.find_class(mod, "_SimpleCallQueue")
+    meths = [n.name for n in cls_src.body if isinstance(n, ast.FunctionDef)]
+    if sorted(meths) != ["__init__", "_turn", "append", "flush"]:
+        raise U("_SimpleCallQueue has methods %r" % (meths,))
+    known_init = {"self._events = []", "self._flushObservers = []", "self._timer = None", "self._in_turn = False"}
+    if not set(init_src) <= known_init:
+        raise U("__init__ sets up state the model does not have: %r" % sorted(set(init_src) - known_init))
     # ---- flush
     fl = P.find_def(mod, "_SimpleCallQueue.flush")
     fb = stmts_no_doc(fl)
@@ -263,6 +278,10 @@ def gen_promise(out):
     if not (src.index("self._target = failure") < src.index(want_deliver) < len(src) - 1):
         raise U("_break: statement order changed")
     out.append("Definition pr_break_guards_rebreak : bool := %s." % ("true" if want_guard in src else "false"))
+    known_break = {want_guard, want_deliver, "self._target = failure", ast.unparse(last),
+                   "if not isinstance(failure, Failure):\n    raise UsageError('Promises must be broken with a Failure')"}
+    if not set(src) <= known_break:
+        raise U("_break contains statements the model does not cover: %r" % sorted(set(src) - known_break))
 
     # ---- _resolve
     rs = P.find_def(mod, "Promise._resolve")
@@ -313,8 +332,10 @@ def gen_promise(out):
     out.append("Definition pr_pending_pos : endpos := %s." % pos1)
     sn = P.find_def(mod, "Promise._send")
     ssrc = [ast.unparse(s) for s in stmts_no_doc(sn)]
-    if ssrc[0] != S("p, resolver = makePromise()") or ssrc[-1] != "return p":
-        raise U("_send no longer returns a fresh promise")
+    if ssrc[0] != S("p, resolver = makePromise()") or ssrc[-1] != "return p" or len(ssrc) != 3:
+        raise U("_send no longer has the form: make the result promise; queue or eventually-deliver; return it")
+    if len(stmts_no_doc(P.find_def(mod, "Promise._sendOnly"))) != 1:
+        raise U("_sendOnly contains statements the model does not cover")
 
     wf = P.find_def(mod, "Promise._wait_for_resolution")
     wsrc = stmts_no_doc(wf)
